@@ -64,8 +64,16 @@ pub struct Pki {
 
 /// times 0, 1, 2 of the models (whole seconds, one hour apart) and far ends
 pub fn time_of(t: i64) -> Time {
-    Time::utc(2024, 3, 1, 12, 0, 0) + chrono::TimeDelta::try_hours(t).unwrap()
+    // the epoch moves the models' instants next to the UTCTime / GeneralizedTime boundaries: 1 = 1950 (two-digit year "50", the
+    // pivot), 2 = the last hour of 2049 (instant 0 is written as UTCTime, instants 1 and 2 as GeneralizedTime)
+    let base = match EPOCH.load(std::sync::atomic::Ordering::SeqCst) {
+        1 => Time::utc(1950, 3, 1, 12, 0, 0),
+        2 => Time::utc(2049, 12, 31, 23, 0, 0),
+        _ => Time::utc(2024, 3, 1, 12, 0, 0),
+    };
+    base + chrono::TimeDelta::try_hours(t).unwrap()
 }
+pub static EPOCH: std::sync::atomic::AtomicUsize = std::sync::atomic::AtomicUsize::new(0);
 
 pub fn rsync(s: &str) -> uri::Rsync {
     uri::Rsync::from_str(s).unwrap()
